@@ -752,6 +752,10 @@ def main():
     sources = []
     out = []
     sidecar = {}
+    bdir = os.path.join(os.path.dirname(os.path.dirname(GEN_DIR)), "build")
+    side_path = os.path.join(bdir, "gen_point_interval.json")
+    if os.path.exists(side_path):      # never leave the statements of an older source behind a failed translation
+        os.remove(side_path)
     AMC = mc.AbstractMatchingCost
     for cls, name in ((sad_ssd.SadSsd, "point_interval"), (census.Census, "point_interval"), (zncc.Zncc, "point_interval"),
                       (sad_ssd.SadSsd, "cv_masked"), (census.Census, "cv_masked"), (zncc.Zncc, "cv_masked"),
@@ -861,9 +865,8 @@ def main():
             + "\n".join(out))
     path, changed = emit("PointInterval", text, sources)
     # the python text of the translated statements, for the statement-level correspondence of harness/mc_gen.py
-    bdir = os.path.join(os.path.dirname(os.path.dirname(GEN_DIR)), "build")
     os.makedirs(bdir, exist_ok=True)
-    with open(os.path.join(bdir, "gen_point_interval.json"), "w") as fjs:
+    with open(side_path, "w") as fjs:
         json.dump(sidecar, fjs, indent=1)
     print(f"gen_point_interval: {path} {'rewritten' if changed else 'unchanged'} functions={len(sources)}")
 
